@@ -398,10 +398,12 @@ class DisjunctionMaxMatcher(UnionMatcher):
             return max(self.a.score(), self.b.score())
 
     def max_quality(self):
-        return max(self.a.max_quality(), self.b.max_quality())
+        return max([m.max_quality() for m in (self.a, self.b)
+                    if m.is_active()] or [0.0])
 
     def block_quality(self):
-        return max(self.a.block_quality(), self.b.block_quality())
+        return max([m.block_quality() for m in (self.a, self.b)
+                    if m.is_active()] or [0.0])
 
     def skip_to_quality(self, minquality):
         # The sub-matchers are about to move, so forget the cached id
